@@ -387,20 +387,20 @@ Require Import Spec.MuxSpec.
 
 (* ---------------- esContexts as an association list ---------------- *)
 
-Lemma es_find_cons q c l pid : es_find pid ((q, c) :: l) = if q =? pid then Some c else es_find pid l.
+Lemma es_find_cons {A} q (c : A) l pid : es_find pid ((q, c) :: l) = if q =? pid then Some c else es_find pid l.
 Proof. unfold es_find. cbn [find fst]. destruct (q =? pid); reflexivity. Qed.
 
-Lemma es_mem_cons q c l pid : es_mem pid ((q, c) :: l) = (q =? pid) || es_mem pid l.
+Lemma es_mem_cons {A} q (c : A) l pid : es_mem pid ((q, c) :: l) = (q =? pid) || es_mem pid l.
 Proof. reflexivity. Qed.
 
-Lemma es_mem_find pid l : es_mem pid l = match es_find pid l with Some _ => true | None => false end.
+Lemma es_mem_find {A} pid (l : list (Z * A)) : es_mem pid l = match es_find pid l with Some _ => true | None => false end.
 Proof.
   induction l as [|[q c] l IH]; [reflexivity|]. rewrite es_mem_cons, es_find_cons, IH.
   destruct (q =? pid); reflexivity.
 Qed.
 
-Lemma es_find_map pid q c l :
-  es_find pid (map (fun p : Z * esctx => if fst p =? q then (q, c) else p) l) =
+Lemma es_find_map {A} pid q (c : A) l :
+  es_find pid (map (fun p : Z * A => if fst p =? q then (q, c) else p) l) =
   if q =? pid then (if es_mem q l then Some c else None) else es_find pid l.
 Proof.
   induction l as [|[r d] l IH].
@@ -411,7 +411,7 @@ Proof.
       apply Z.eqb_eq in Eqp. subst pid. rewrite Erq. reflexivity.
 Qed.
 
-Lemma es_find_app_single pid q c l :
+Lemma es_find_app_single {A} pid q (c : A) l :
   es_find pid (l ++ [(q, c)]) = match es_find pid l with Some x => Some x | None => if q =? pid then Some c else None end.
 Proof.
   induction l as [|[r d] l IH].
@@ -419,7 +419,7 @@ Proof.
   - cbn [app]. rewrite !es_find_cons, IH. destruct (r =? pid); reflexivity.
 Qed.
 
-Lemma es_find_put pid q c l : es_find pid (es_put q c l) = if q =? pid then Some c else es_find pid l.
+Lemma es_find_put {A} pid q (c : A) l : es_find pid (es_put q c l) = if q =? pid then Some c else es_find pid l.
 Proof.
   unfold es_put. destruct (es_mem q l) eqn:E.
   - rewrite es_find_map, E. reflexivity.
@@ -428,7 +428,7 @@ Proof.
     + destruct (es_find pid l); reflexivity.
 Qed.
 
-Lemma es_find_del pid q l : es_find pid (es_del q l) = if q =? pid then None else es_find pid l.
+Lemma es_find_del {A} pid q (l : list (Z * A)) : es_find pid (es_del q l) = if q =? pid then None else es_find pid l.
 Proof.
   induction l as [|[r d] l IH].
   - cbn. destruct (q =? pid); reflexivity.
@@ -863,13 +863,14 @@ Record ms_inv (s : mstate) : Prop := {
   inv_nodup : NoDup (map spid (ms_streams s));
   inv_es_wf : forall pid ctx, es_find pid (ms_es s) = Some ctx -> cc_wf (ec_cc ctx);
   inv_pat_wf : cc_wf (ms_pat_cc s);
-  inv_pmt_wf : cc_wf (ms_pmt_cc s)
+  inv_pmt_wf : cc_wf (ms_pmt_cc s);
+  inv_rm_wf : forall pid c, es_find pid (ms_removed s) = Some c -> cc_wf c
 }.
 
-Lemma es_mem_put pid q c l : es_mem pid (es_put q c l) = (q =? pid) || es_mem pid l.
+Lemma es_mem_put {A} pid q (c : A) l : es_mem pid (es_put q c l) = (q =? pid) || es_mem pid l.
 Proof. rewrite !es_mem_find, es_find_put. destruct (q =? pid); reflexivity. Qed.
 
-Lemma es_mem_del pid q l : es_mem pid (es_del q l) = negb (q =? pid) && es_mem pid l.
+Lemma es_mem_del {A} pid q (l : list (Z * A)) : es_mem pid (es_del q l) = negb (q =? pid) && es_mem pid l.
 Proof. rewrite !es_mem_find, es_find_del. destruct (q =? pid); reflexivity. Qed.
 
 Lemma stream_pid_in_app p l e : stream_pid_in p (l ++ [e]) = stream_pid_in p l || (spid e =? p).
@@ -949,48 +950,80 @@ Proof.
   - intros Hw. apply (inc_st_spec _ Hw).
 Qed.
 
+Lemma retransmit_removed s f sr pt : retransmit_tables s f = (sr, pt) -> pa_res pt <> Panic -> ms_removed sr = ms_removed s.
+Proof.
+  intros H Hnp. destruct (retransmit_spec _ _ _ _ H Hnp) as [(_ & -> & _)|[(_ & c & _ & -> & _)|(_ & _ & ->)]]; reflexivity.
+Qed.
+
+Lemma write_data_frame s d s' p : write_data s d = (s', p) -> pa_res p <> Panic ->
+  ms_streams s' = ms_streams s /\ ms_next_pid s' = ms_next_pid s /\ ms_pcr_pid s' = ms_pcr_pid s /\ ms_period s' = ms_period s /\
+  ms_removed s' = ms_removed s.
+Proof.
+  intros Hstep Hnp. unfold write_data in Hstep. destruct (es_find _ _) as [ctx|]; [|pinj Hstep; repeat split; reflexivity].
+  destruct (retransmit_tables s _) as [sr pt] eqn:Ert. destruct pt as [rt nt gt pkt]. destruct rt as [u|c|].
+  - assert (Hpt : pa_res (mk_part (Ok u) nt gt pkt) <> Panic) by (cbn; congruence).
+    destruct (retransmit_frame _ _ _ _ Ert Hpt) as (_ & F1 & F3 & F2 & F4 & _). pose proof (retransmit_removed _ _ _ _ Ert Hpt) as F5.
+    destruct (MuxerData_PES d) as [pes|]; [|pinj Hstep; repeat split; assumption].
+    destruct (PESData_Data pes); [pinj Hstep; repeat split; assumption|].
+    destruct (PESData_Header pes); pinj Hstep; repeat split; assumption.
+  - assert (Hpt : pa_res (mk_part (Err c) nt gt pkt) <> Panic) by (cbn; congruence).
+    destruct (retransmit_frame _ _ _ _ Ert Hpt) as (_ & F1 & F3 & F2 & F4 & _). pose proof (retransmit_removed _ _ _ _ Ert Hpt) as F5.
+    pinj Hstep. repeat split; assumption.
+  - pinj Hstep. cbn in Hnp. congruence.
+Qed.
+
+Lemma readded_wf es pid rm : (forall q c, es_find q rm = Some c -> cc_wf c) -> cc_wf (ec_cc (readded_context es pid rm)).
+Proof.
+  intros H. unfold readded_context. destruct (es_find pid rm) as [c|] eqn:E; cbn [ec_cc new_es_context]; [eapply H; eauto|apply new_cc_wf].
+Qed.
+
 Lemma step_inv s o s' p : ms_inv s -> mux_step_part s o = (s', p) -> pa_res p <> Panic -> op_entry_ok o -> ms_inv s'.
 Proof.
-  intros Hinv Hstep Hnp Hen. destruct Hinv as [Hkeys Hnd Hwf Hpat Hpmt].
+  intros Hinv Hstep Hnp Hen. destruct Hinv as [Hkeys Hnd Hwf Hpat Hpmt Hrm].
   destruct o as [es|pid|pid| |d|pk]; cbn [mux_step_part] in Hstep.
   - (* Add *)
     unfold add_es in Hstep. fold (spid es) in Hstep.
     destruct (negb (spid es =? 0)) eqn:Ezero.
     + destruct (stream_pid_in (spid es) (ms_streams s)) eqn:Edup; pinj Hstep; [constructor; assumption|].
-      constructor; cbn [set_streams_es ms_es ms_streams ms_pat_cc ms_pmt_cc]; try assumption.
+      constructor; cbn [set_streams_es ms_es ms_streams ms_pat_cc ms_pmt_cc ms_removed]; try assumption.
       * intros q. rewrite es_mem_put, stream_pid_in_app, Hkeys. apply orb_comm.
       * apply NoDup_app_single; assumption.
       * intros q ctx. rewrite es_find_put. destruct (spid es =? q); [|apply Hwf].
-        intros H; inversion H; subst. apply new_cc_wf.
+        intros H; inversion H; subst. apply readded_wf, Hrm.
+      * intros q c. rewrite es_find_del. destruct (spid es =? q); [discriminate|apply Hrm].
     + destruct (next_free_pid _ _ _) as [np|] eqn:Enf; pinj Hstep; [|cbn in Hnp; congruence].
       destruct (next_free_pid_spec _ _ _ _ Enf) as [Hfree _].
-      constructor; cbn [set_streams_es ms_es ms_streams ms_pat_cc ms_pmt_cc]; try assumption.
+      constructor; cbn [set_streams_es ms_es ms_streams ms_pat_cc ms_pmt_cc ms_removed]; try assumption.
       * intros q. rewrite es_mem_put, stream_pid_in_app, Hkeys. apply orb_comm.
       * apply NoDup_app_single; [assumption|]. unfold spid, with_pid. cbn. rewrite <- Hkeys. exact Hfree.
       * intros q ctx. rewrite es_find_put. destruct (np =? q); [|apply Hwf].
-        intros H; inversion H; subst. apply new_cc_wf.
+        intros H; inversion H; subst. apply readded_wf, Hrm.
+      * intros q c. rewrite es_find_del. destruct (np =? q); [discriminate|apply Hrm].
   - (* Remove *)
     unfold remove_es in Hstep. destruct (stream_pid_in pid (ms_streams s)) eqn:Ein; pinj Hstep; [|constructor; assumption].
-    constructor; cbn [set_streams_es ms_es ms_streams ms_pat_cc ms_pmt_cc]; try assumption.
+    constructor; cbn [set_streams_es ms_es ms_streams ms_pat_cc ms_pmt_cc ms_removed]; try assumption.
     + intros q. rewrite es_mem_del, stream_pid_in_remove, Hkeys by assumption. reflexivity.
     + apply NoDup_remove_first, Hnd.
     + intros q ctx. rewrite es_find_del. destruct (pid =? q); [discriminate|apply Hwf].
+    + intros q c. destruct (es_find pid (ms_es s)) as [ctx|] eqn:Ectx; [|apply Hrm].
+      rewrite es_find_put. destruct (pid =? q); [|apply Hrm]. intros H; inversion H; subst. eapply Hwf; eauto.
   - (* SetPCR *)
     pinj Hstep. constructor; assumption.
   - (* WriteTables *)
     destruct (write_tables_spec _ _ _ Hstep Hnp) as [(c & _ & -> & _)|(? & ? & ? & ? & _ & _ & _ & _ & _ & _ & _ & _ & _ & ->)];
       [constructor; assumption|].
-    constructor; cbn [tables_state set_tables ms_es ms_streams ms_pat_cc ms_pmt_cc]; try assumption.
+    constructor; cbn [tables_state set_tables ms_es ms_streams ms_pat_cc ms_pmt_cc ms_removed]; try assumption.
     + apply (inc_st_spec _ Hpat).
     + apply (inc_st_spec _ Hpmt).
   - (* WriteData *)
+    pose proof (write_data_frame _ _ _ _ Hstep Hnp) as (_ & _ & _ & _ & Frm).
     destruct (write_data_spec _ _ _ _ Hstep Hnp Hen (Hwf _)) as [(_ & -> & _)|(ctx & sr & pt & Hf & Hrt & Hnpt & Hcases)];
       [constructor; assumption|].
     destruct (retransmit_frame _ _ _ _ Hrt Hnpt) as (Fes & Fst & _ & _ & _ & Fpat & Fpmt).
     destruct Hcases as [(c & _ & -> & _)|(_ & k & up & ug & un & _ & _ & _ & _ & _ & Hsame & Hfind)].
-    + constructor; rewrite ?Fes, ?Fst; auto.
+    + constructor; rewrite ?Fes, ?Fst, ?Frm; auto.
     + destruct Hsame as (_ & Sst & _ & _ & _ & _ & _ & _ & Spat & Spmt & _).
-      constructor; rewrite ?Sst, ?Spat, ?Spmt, ?Fst; auto.
+      constructor; rewrite ?Sst, ?Spat, ?Spmt, ?Fst, ?Frm; auto.
       * intros q. rewrite es_mem_find, Hfind, Fes. destruct (MuxerData_PID d =? q) eqn:E.
         -- apply Z.eqb_eq in E. subst q. rewrite <- Hkeys, es_mem_find, Hf. reflexivity.
         -- rewrite <- Hkeys, es_mem_find. reflexivity.
@@ -1002,12 +1035,13 @@ Qed.
 
 Lemma new_muxer_inv period : ms_inv (new_muxer period).
 Proof.
-  constructor; cbn [new_muxer ms_es ms_streams ms_pat_cc ms_pmt_cc].
+  constructor; cbn [new_muxer ms_es ms_streams ms_pat_cc ms_pmt_cc ms_removed].
   - reflexivity.
   - constructor.
   - intros pid ctx H. discriminate.
   - apply new_cc_wf.
   - apply new_cc_wf.
+  - intros pid c H. discriminate.
 Qed.
 
 (* ---------------- what one call does to the counters (C05) ---------------- *)
@@ -1069,15 +1103,17 @@ Qed.
 Lemma ccs_from_nil c k : ccs_from c k = [] -> k = O.
 Proof. destruct k; [reflexivity|discriminate]. Qed.
 
-(* an elementary stream's counter: a call either removes the stream, or emits k payload packets on its PID
-   carrying the next k counter values and leaves the counter k steps further *)
+Definition rm_cc (pid : Z) (s : mstate) : option wrappingCounter := es_find pid (ms_removed s).
+
+(* an elementary stream's counter: a call either removes the stream (the counter is kept for when the PID is added
+   again), or emits k payload packets on its PID carrying the next k counter values and leaves the counter k steps further *)
 Lemma step_es_effect s o s' p pid c : ms_inv s -> mux_step_part s o = (s', p) -> pa_res p <> Panic -> op_entry_ok o ->
   pid <> C_PIDPAT -> pid <> C_pmtStartPID -> es_cc pid s = Some c ->
-  (removes pid o p = true /\ payload_ccs pid (muxer_pkts o p) = [] /\ es_cc pid s' = None) \/
+  (removes pid o p = true /\ payload_ccs pid (muxer_pkts o p) = [] /\ es_cc pid s' = None /\ rm_cc pid s' = Some c) \/
   (removes pid o p = false /\ exists k, payload_ccs pid (muxer_pkts o p) = ccs_from c k /\ es_cc pid s' = Some (iter_inc k c)).
 Proof.
-  intros Hinv Hstep Hnp Hen Hn1 Hn2 Hc. pose proof Hinv as [Hkeys Hnd Hwf Hpat Hpmt].
-  unfold es_cc in *. destruct (es_find pid (ms_es s)) as [ctx0|] eqn:Ef0; [|discriminate].
+  intros Hinv Hstep Hnp Hen Hn1 Hn2 Hc. pose proof Hinv as [Hkeys Hnd Hwf Hpat Hpmt Hrm].
+  unfold es_cc, rm_cc in *. destruct (es_find pid (ms_es s)) as [ctx0|] eqn:Ef0; [|discriminate].
   cbn [option_map] in Hc. apply ok_some_inj in Hc. subst c.
   assert (Hmem : es_mem pid (ms_es s) = true) by (rewrite es_mem_find, Ef0; reflexivity).
   destruct o as [es|q|q| |d|pk]; cbn [mux_step_part muxer_pkts removes] in *.
@@ -1097,7 +1133,8 @@ Proof.
   - (* Remove *)
     unfold remove_es in Hstep. destruct (stream_pid_in q (ms_streams s)) eqn:Ein; pinj Hstep; cbn [pa_pkts pa_res part_of_res is_ok].
     + destruct (q =? pid) eqn:E; cbn [andb].
-      * left. repeat split; try reflexivity. cbn [set_streams_es ms_es]. rewrite es_find_del, E. reflexivity.
+      * left. apply Z.eqb_eq in E. subst q. cbn [set_streams_es ms_es ms_removed]. rewrite Ef0, es_find_del, es_find_put, !Z.eqb_refl.
+        repeat split; reflexivity.
       * right. split; [reflexivity|]. exists O. split; [reflexivity|]. cbn [set_streams_es ms_es ccs_from iter_inc]. rewrite es_find_del, E, Ef0. reflexivity.
     + right. rewrite andb_false_r. split; [reflexivity|]. exists O. rewrite Ef0. split; reflexivity.
   - (* SetPCR *)
@@ -1126,48 +1163,56 @@ Proof.
     pinj Hstep. right. split; [reflexivity|]. exists O. rewrite Ef0. split; reflexivity.
 Qed.
 
+(* a PID without a context: nothing is emitted on it; a context appears only through an addition, and then with the
+   counter the PID had when it was removed (or a fresh one) *)
 Lemma step_es_none s o s' p pid : ms_inv s -> mux_step_part s o = (s', p) -> pa_res p <> Panic -> op_entry_ok o ->
   pid <> C_PIDPAT -> pid <> C_pmtStartPID -> es_cc pid s = None ->
   payload_ccs pid (muxer_pkts o p) = [] /\ removes pid o p = false /\
-  (es_cc pid s' = None \/ es_cc pid s' = Some (newWrappingCounter cc_wrap)).
+  ((es_cc pid s' = None /\ rm_cc pid s' = rm_cc pid s) \/
+   es_cc pid s' = Some (match rm_cc pid s with Some c => c | None => newWrappingCounter cc_wrap end)).
 Proof.
-  intros Hinv Hstep Hnp Hen Hn1 Hn2 Hc. pose proof Hinv as [Hkeys Hnd Hwf Hpat Hpmt].
-  unfold es_cc in *. destruct (es_find pid (ms_es s)) as [ctx0|] eqn:Ef0; [discriminate|]. clear Hc.
+  intros Hinv Hstep Hnp Hen Hn1 Hn2 Hc. pose proof Hinv as [Hkeys Hnd Hwf Hpat Hpmt Hrm].
+  unfold es_cc, rm_cc in *. destruct (es_find pid (ms_es s)) as [ctx0|] eqn:Ef0; [discriminate|]. clear Hc.
   assert (Hmem : es_mem pid (ms_es s) = false) by (rewrite es_mem_find, Ef0; reflexivity).
+  assert (Hctx : forall es, option_map ec_cc (Some (readded_context es pid (ms_removed s))) =
+                            Some (match es_find pid (ms_removed s) with Some c => c | None => newWrappingCounter cc_wrap end)).
+  { intros es. unfold readded_context. destruct (es_find pid (ms_removed s)); reflexivity. }
   destruct o as [es|q|q| |d|pk]; cbn [mux_step_part muxer_pkts removes] in *.
   - (* Add *)
     unfold add_es in Hstep. fold (spid es) in Hstep.
     destruct (negb (spid es =? 0)) eqn:Ezero.
     + destruct (stream_pid_in (spid es) (ms_streams s)) eqn:Edup; pinj Hstep; cbn [pa_pkts part_of_res];
-        [rewrite Ef0; repeat split; left; reflexivity|].
-      repeat split. cbn [set_streams_es ms_es]. rewrite es_find_put.
-      destruct (spid es =? pid); [right; reflexivity|left; rewrite Ef0; reflexivity].
+        [rewrite Ef0; repeat split; left; split; reflexivity|].
+      repeat split. cbn [set_streams_es ms_es ms_removed]. rewrite es_find_put, es_find_del.
+      destruct (spid es =? pid) eqn:E; [right; apply Z.eqb_eq in E; rewrite E; apply Hctx|left; rewrite Ef0; split; reflexivity].
     + destruct (next_free_pid _ _ _) as [np|] eqn:Enf; pinj Hstep; [|cbn in Hnp; congruence].
-      cbn [pa_pkts part_of_res]. repeat split. cbn [set_streams_es ms_es]. rewrite es_find_put.
-      destruct (np =? pid); [right; reflexivity|left; rewrite Ef0; reflexivity].
+      cbn [pa_pkts part_of_res]. repeat split. cbn [set_streams_es ms_es ms_removed]. rewrite es_find_put, es_find_del.
+      destruct (np =? pid) eqn:E; [right; apply Z.eqb_eq in E; rewrite E; apply Hctx|left; rewrite Ef0; split; reflexivity].
   - (* Remove *)
     unfold remove_es in Hstep. destruct (stream_pid_in q (ms_streams s)) eqn:Ein; pinj Hstep; cbn [pa_pkts pa_res part_of_res is_ok].
     + destruct (q =? pid) eqn:E; cbn [andb].
       * apply Z.eqb_eq in E. subst q. rewrite <- Hkeys, Hmem in Ein. discriminate.
-      * repeat split. left. cbn [set_streams_es ms_es]. rewrite es_find_del, E, Ef0. reflexivity.
-    + rewrite andb_false_r. repeat split. left. rewrite Ef0. reflexivity.
-  - pinj Hstep. repeat split. left. cbn [set_pcr ms_es]. rewrite Ef0. reflexivity.
+      * repeat split. left. cbn [set_streams_es ms_es ms_removed]. rewrite es_find_del, E, Ef0. split; [reflexivity|].
+        destruct (es_find q (ms_es s)); [rewrite es_find_put, E|]; reflexivity.
+    + rewrite andb_false_r. repeat split. left. rewrite Ef0. split; reflexivity.
+  - pinj Hstep. repeat split. left. cbn [set_pcr ms_es ms_removed]. rewrite Ef0. split; reflexivity.
   - pose proof (write_tables_effect _ _ _ Hstep Hnp) as Heff.
     rewrite (tables_effect_other _ _ _ pid Heff) by assumption. repeat split. left.
     destruct (write_tables_spec _ _ _ Hstep Hnp) as [(c & _ & -> & _)|(? & ? & ? & ? & _ & _ & _ & _ & _ & _ & _ & _ & _ & ->)];
-      cbn [tables_state set_tables ms_es]; rewrite Ef0; reflexivity.
-  - destruct (write_data_spec _ _ _ _ Hstep Hnp Hen (Hwf _)) as [(_ & -> & ->)|(ctx & sr & pt & Hf & Hrt & Hnpt & Hcases)].
-    { cbn [pa_pkts]. rewrite Ef0. repeat split. left; reflexivity. }
+      cbn [tables_state set_tables ms_es ms_removed]; rewrite Ef0; split; reflexivity.
+  - pose proof (write_data_frame _ _ _ _ Hstep Hnp) as (_ & _ & _ & _ & Frm).
+    destruct (write_data_spec _ _ _ _ Hstep Hnp Hen (Hwf _)) as [(_ & -> & ->)|(ctx & sr & pt & Hf & Hrt & Hnpt & Hcases)].
+    { cbn [pa_pkts]. rewrite Ef0. repeat split. left; split; reflexivity. }
     destruct (retransmit_frame _ _ _ _ Hrt Hnpt) as (Fes & _).
     pose proof (retransmit_effect _ _ _ _ Hrt Hnpt) as Heff.
     pose proof (tables_effect_other _ _ _ pid Heff Hpat Hpmt Hn1 Hn2) as Htab.
     assert (Hne : MuxerData_PID d <> pid) by (intros E; rewrite E in Hf; congruence).
-    destruct Hcases as [(c & _ & -> & ->)|(_ & k & up & ug & un & Hpk & _ & _ & Hall & Hccs & _ & Hfind)].
-    + rewrite Htab, Fes, Ef0. repeat split. left; reflexivity.
-    + rewrite Hpk, payload_ccs_app, Htab, Hfind, Fes. cbn [app].
+    destruct Hcases as [(c & _ & Hs & ->)|(_ & k & up & ug & un & Hpk & _ & _ & Hall & Hccs & _ & Hfind)].
+    + subst s'. rewrite Htab, Fes, Ef0, Frm. repeat split. left; split; reflexivity.
+    + rewrite Hpk, payload_ccs_app, Htab, Hfind, Fes, Frm. cbn [app].
       destruct (MuxerData_PID d =? pid) eqn:E; [lia|].
-      rewrite (payload_ccs_other pid _ _ Hall) by lia. rewrite Ef0. repeat split. left; reflexivity.
-  - pinj Hstep. rewrite Ef0. repeat split. left; reflexivity.
+      rewrite (payload_ccs_other pid _ _ Hall) by lia. rewrite Ef0. repeat split. left; split; reflexivity.
+  - pinj Hstep. rewrite Ef0. repeat split. left; split; reflexivity.
 Qed.
 
 (* the PAT and PMT counters *)
@@ -1191,7 +1236,7 @@ Lemma step_tables_effect s o s' p : ms_inv s -> mux_step_part s o = (s', p) -> p
     payload_ccs C_pmtStartPID (muxer_pkts o p) = ccs_from (ms_pmt_cc s) k ++ rpmt /\
     (es_mem C_pmtStartPID (ms_es s) = false -> rpmt = []) /\ ms_pmt_cc s' = iter_inc k (ms_pmt_cc s).
 Proof.
-  intros Hinv Hstep Hnp Hen. pose proof Hinv as [Hkeys Hnd Hwf Hpat Hpmt].
+  intros Hinv Hstep Hnp Hen. pose proof Hinv as [Hkeys Hnd Hwf Hpat Hpmt Hrm].
   destruct o as [es|q|q| |d|pk]; cbn [mux_step_part muxer_pkts] in *.
   - exists O, [], []. unfold add_es in Hstep. destruct (negb _).
     + destruct (stream_pid_in _ _); pinj Hstep; repeat split; reflexivity.
@@ -1269,8 +1314,12 @@ Proof.
   rewrite last_ccs_from by discriminate. split; [reflexivity|]. apply iter_inc_range; [exact Hc|discriminate].
 Qed.
 
-Definition es_tracks (pid : Z) (s : mstate) (cur : list Z) : Prop :=
-  match es_cc pid s with Some c => tracks c cur | None => cur = [] end.
+(* a PID's counter: in its context while the stream is added, kept in removedCCs after a removal *)
+Definition pid_tracks (pid : Z) (s : mstate) (cur : list Z) : Prop :=
+  match es_cc pid s with
+  | Some c => tracks c cur
+  | None => match rm_cc pid s with Some c => tracks c cur | None => cur = [] end
+  end.
 
 Lemma es_cc_wf pid s c : ms_inv s -> es_cc pid s = Some c -> cc_wf c.
 Proof.
@@ -1278,32 +1327,36 @@ Proof.
   cbn. intros H. apply ok_some_inj in H. subst. eapply inv_es_wf; eauto.
 Qed.
 
-Lemma lifetimes_chain pid : pid <> C_PIDPAT -> pid <> C_pmtStartPID ->
-  forall ops s cur, ms_inv s -> chain16 cur -> es_tracks pid s cur ->
+Lemma es_chain pid : pid <> C_PIDPAT -> pid <> C_pmtStartPID ->
+  forall ops s cur, ms_inv s -> chain16 cur -> pid_tracks pid s cur ->
   no_panic (snd (mux_run_parts s ops)) -> Forall op_entry_ok ops ->
-  Forall chain16 (lifetimes pid (combine ops (snd (mux_run_parts s ops))) cur).
+  chain16 (cur ++ emitted_ccs pid (combine ops (snd (mux_run_parts s ops)))).
 Proof.
   intros Hn1 Hn2. induction ops as [|o r IH]; intros s cur Hinv Hch Htr Hnp Hen.
-  - cbn. constructor; [exact Hch|constructor].
-  - rewrite mux_run_parts_cons in *. cbn [fst snd combine lifetimes] in *.
+  - cbn. rewrite app_nil_r. exact Hch.
+  - rewrite mux_run_parts_cons in *. cbn [fst snd combine] in *. unfold emitted_ccs. cbn [map concat fst snd].
+    fold (emitted_ccs pid (combine r (snd (mux_run_parts (fst (mux_step_part s o)) r)))).
     inversion Hnp as [|x xs Hp Hnp']; subst. inversion Hen as [|y ys Ho Hen']; subst.
     destruct (mux_step_part s o) as [s1 p] eqn:E. cbn [fst snd] in *.
-    pose proof (step_inv _ _ _ _ Hinv E Hp Ho) as Hinv1.
-    unfold es_tracks in Htr. destruct (es_cc pid s) as [c|] eqn:Ec.
+    pose proof (step_inv _ _ _ _ Hinv E Hp Ho) as Hinv1. rewrite app_assoc.
+    unfold pid_tracks in Htr. destruct (es_cc pid s) as [c|] eqn:Ec.
     + pose proof (es_cc_wf _ _ _ Hinv Ec) as Hc.
-      destruct (step_es_effect _ _ _ _ pid c Hinv E Hp Ho Hn1 Hn2 Ec) as [(Hrm & HL & Hs1)|(Hrm & k & HL & Hs1)]; rewrite Hrm, HL.
-      * rewrite app_nil_r. constructor; [exact Hch|]. apply IH; try assumption; [exact I|]. unfold es_tracks. rewrite Hs1. reflexivity.
-      * destruct (tracks_extend c cur k Hc Hch Htr) as [Hch' Htr']. apply IH; try assumption. unfold es_tracks. rewrite Hs1. exact Htr'.
-    + subst cur. destruct (step_es_none _ _ _ _ pid Hinv E Hp Ho Hn1 Hn2 Ec) as (HL & Hrm & Hs1). rewrite Hrm, HL. cbn [app].
-      apply IH; try assumption. unfold es_tracks. destruct Hs1 as [-> | ->]; [reflexivity|]. intros H; congruence.
+      destruct (step_es_effect _ _ _ _ pid c Hinv E Hp Ho Hn1 Hn2 Ec) as [(Hrm & HL & Hs1 & Hr1)|(Hrm & k & HL & Hs1)]; rewrite HL.
+      * rewrite app_nil_r. apply IH; try assumption. unfold pid_tracks. rewrite Hs1, Hr1. exact Htr.
+      * destruct (tracks_extend c cur k Hc Hch Htr) as [Hch' Htr']. apply IH; try assumption. unfold pid_tracks. rewrite Hs1. exact Htr'.
+    + destruct (step_es_none _ _ _ _ pid Hinv E Hp Ho Hn1 Hn2 Ec) as (HL & Hrm & Hs1). rewrite HL, app_nil_r.
+      apply IH; try assumption. unfold pid_tracks. destruct Hs1 as [[Hs1 Hr1]|Hs1].
+      * rewrite Hs1, Hr1. exact Htr.
+      * rewrite Hs1. destruct (rm_cc pid s); [exact Htr|]. subst cur. intros H; congruence.
 Qed.
 
-(* C05_cc for elementary streams: every lifetime of every PID is a chain *)
+(* C05_cc for elementary streams: over the whole history the payload packets of a PID form one chain; a PID that is
+   removed and added again carries on *)
 Theorem cc_chain_es period ops pid : pid <> C_PIDPAT -> pid <> C_pmtStartPID ->
   no_panic (snd (mux_run_parts (new_muxer period) ops)) -> Forall op_entry_ok ops ->
-  Forall chain16 (lifetimes pid (combine ops (snd (mux_run_parts (new_muxer period) ops))) []).
+  chain16 (emitted_ccs pid (combine ops (snd (mux_run_parts (new_muxer period) ops)))).
 Proof.
-  intros H1 H2 Hnp Hen. apply lifetimes_chain; try assumption; [apply new_muxer_inv|exact I|reflexivity].
+  intros H1 H2 Hnp Hen. apply (es_chain pid H1 H2 ops (new_muxer period) []); try assumption; [apply new_muxer_inv|exact I|reflexivity].
 Qed.
 
 (* ---------------- PAT and PMT counters over a run ---------------- *)
@@ -1454,25 +1507,10 @@ Qed.
 Definition pid_inv (s : mstate) (a : Z) : Prop :=
   C_startPID <= ms_next_pid s /\ pid_potential (ms_streams s) (ms_next_pid s) <= C_startPID + 1 + a.
 
-Lemma write_data_frame s d s' p : write_data s d = (s', p) -> pa_res p <> Panic ->
-  ms_streams s' = ms_streams s /\ ms_next_pid s' = ms_next_pid s /\ ms_pcr_pid s' = ms_pcr_pid s /\ ms_period s' = ms_period s.
-Proof.
-  intros Hstep Hnp. unfold write_data in Hstep. destruct (es_find _ _) as [ctx|]; [|pinj Hstep; repeat split; reflexivity].
-  destruct (retransmit_tables s _) as [sr pt] eqn:Ert. destruct pt as [rt nt gt pkt]. destruct rt as [u|c|].
-  - assert (Hpt : pa_res (mk_part (Ok u) nt gt pkt) <> Panic) by (cbn; congruence).
-    destruct (retransmit_frame _ _ _ _ Ert Hpt) as (_ & F1 & F3 & F2 & F4 & _).
-    destruct (MuxerData_PES d) as [pes|]; [|pinj Hstep; repeat split; assumption].
-    destruct (PESData_Data pes); [pinj Hstep; repeat split; assumption|].
-    destruct (PESData_Header pes); pinj Hstep; repeat split; assumption.
-  - assert (Hpt : pa_res (mk_part (Err c) nt gt pkt) <> Panic) by (cbn; congruence).
-    destruct (retransmit_frame _ _ _ _ Ert Hpt) as (_ & F1 & F3 & F2 & F4 & _). pinj Hstep. repeat split; assumption.
-  - pinj Hstep. cbn in Hnp. congruence.
-Qed.
-
 Lemma step_pid_inv s o s' p a : ms_inv s -> pid_inv s a -> mux_step_part s o = (s', p) -> pa_res p <> Panic ->
   0 <= a -> a + is_add o <= max_adds -> pid_inv s' (a + is_add o).
 Proof.
-  intros Hinv [Hlo Hpot] Hstep Hnp Ha Hmax. pose proof Hinv as [Hkeys Hnd _ _ _]. unfold max_adds in Hmax.
+  intros Hinv [Hlo Hpot] Hstep Hnp Ha Hmax. pose proof Hinv as [Hkeys Hnd _ _ _ _]. unfold max_adds in Hmax.
   destruct o as [es|q|q| |d|pk]; cbn [mux_step_part is_add] in *.
   - unfold add_es in Hstep. fold (spid es) in Hstep. destruct (negb (spid es =? 0)) eqn:Ezero.
     + destruct (stream_pid_in (spid es) (ms_streams s)) eqn:Edup; pinj Hstep; [split; [exact Hlo|lia]|].
@@ -1509,7 +1547,7 @@ Lemma auto_add_spec s es s' p a : ms_inv s -> pid_inv s a -> 0 <= a -> a + 1 <= 
     ms_next_pid s <= pid /\ C_startPID <= pid <= 8190 /\ pid <> C_pmtStartPID /\
     stream_pid_in pid (ms_streams s) = false /\ es_mem pid (ms_es s) = false.
 Proof.
-  intros Hinv [Hlo Hpot] Ha Hmax Hz Hstep Hok. pose proof Hinv as [Hkeys Hnd _ _ _]. unfold max_adds in Hmax.
+  intros Hinv [Hlo Hpot] Ha Hmax Hz Hstep Hok. pose proof Hinv as [Hkeys Hnd _ _ _ _]. unfold max_adds in Hmax.
   cbn [mux_step_part] in Hstep. unfold add_es in Hstep. fold (spid es) in Hstep. rewrite Hz in Hstep. cbn [Z.eqb negb] in Hstep.
   destruct (next_free_pid _ _ _) as [np|] eqn:Enf; pinj Hstep; [|cbn in Hok; discriminate].
   destruct (nfp_bound _ _ _ _ _ (C_startPID + 1 + a) Hkeys Hnd Enf Hpot ltac:(unfold C_startPID; lia) ltac:(unfold C_startPID in *; lia))
